@@ -18,7 +18,7 @@
    [spec_pass] (Proofs.v) is the table of the property text, transcribed
    independently of the code. *)
 From Coq Require Import ZArith List Bool.
-From Verif Require Import C07.Model C07.Proofs C07.Reconf C07.Timed gen.Gen_C07.
+From Verif Require Import C07.Model C07.Proofs C07.Reconf C07.Timed C07.World gen.Gen_C07.
 Import ListNotations.
 Open Scope Z_scope.
 
@@ -650,6 +650,124 @@ Theorem c07_timed_loops_isolated :
     ttrace H K (if b then tmo1 else tmo0) (if b then cf1 else cf0) (if b then bc1 else bc0) (proj b tops).
 Proof. exact timed_loops_isolated_proof. Qed.
 Print Assumptions c07_timed_loops_isolated.
+
+(* ---------------------------------------------------------------------- *)
+(* Agents at large (Model.v, Section World; proofs in World.v).  The executor / assessor are whatever
+   objects the caller put into the loop: their proteins may carry a `source_agent` label of their own
+   ([WLabelled sz sy o]: the operation [o], the proteins returned at it labelled [sz] / [sy]), and
+   express() may raise a BaseException that is not an Exception ([WAbort q who]: run() in one go;
+   [WEndAbort id now who]: the request [id] in flight; [who] = the assessor raised, the executor having
+   answered).  [wtrace H K tmo cf bc ops] are the events of such a history - [WvPropagated]: run() was
+   left by the exception, the caller got NO reply - and [unworld] turns them into events as before. *)
+
+(* Histories without the new operations are exactly the timed histories. *)
+Theorem c07_world_plain_is_timed :
+  forall (H K : str -> str) tmo cf bc ops,
+    wtrace H K tmo cf bc (map WPlain ops) = map WvOp (ttrace H K tmo cf bc ops).
+Proof. exact world_plain_is_timed_proof. Qed.
+Print Assumptions c07_world_plain_is_timed.
+
+(* "names the assessor as issuer", whatever the proteins say about their own origin: replace the labels
+   by any others ([relabel f]) or take them off ([unlabel]) - every event, hence every reply, every token
+   and its issuer, stays what it was.  The labels are read by nothing. *)
+Theorem c07_world_labels_are_inert :
+  forall (H K : str -> str) (f : option str -> option str) tmo cf bc ops,
+    wtrace H K tmo cf bc (map (relabel f) ops) = wtrace H K tmo cf bc ops /\
+    wtrace H K tmo cf bc (map unlabel ops) = wtrace H K tmo cf bc ops.
+Proof. exact world_labels_inert_proof. Qed.
+Print Assumptions c07_world_labels_are_inert.
+
+(* An agent exception that is not an Exception never yields a not-blocked reply: a request at which an
+   agent that is ASKED raises one either asked nobody after all (turned away by the breaker or served
+   from the cache: the usual reply, [r_exec_called] = [r_assess_called] = false) or has NO reply at all
+   ([WvPropagated], which carries none) - and then nothing was stored (every cache entry was there
+   before), no request in flight and no configuration attribute was touched. *)
+Theorem c07_world_abort_leaves_no_reply :
+  forall (H K : str -> str) t q who t' e,
+    assessor_reached q who = false -> wstep H K t (WAbort q who) = (t', e) ->
+    tconf t' = tconf t /\ tpend t' = tpend t /\ (forall x, In x (tcache t') -> In x (tcache t)) /\
+    ((exists rp adm, e = WvOp (fst t, RvOp (fst (fst (snd t))) (snd (fst (snd t))) (EvReturned abort_id q rp adm)) /\
+                     r_exec_called rp = false /\ r_assess_called rp = false) \/
+     (exists n, e = WvPropagated (fst t) (fst (fst (snd t))) (snd (fst (snd t))) who n /\
+                rreply (wrev e) = None /\ n = length (tcache t'))).
+Proof. exact abort_leaves_no_reply_proof. Qed.
+Print Assumptions c07_world_abort_leaves_no_reply.
+
+(* The same for a request that is in flight when its agent raises: no reply; cache and breaker are what
+   they were; the request is no longer in flight. *)
+Theorem c07_world_end_abort_leaves_no_reply :
+  forall (H K : str -> str) t id now who q t' e,
+    pending_find id (tpend t) = Some q -> assessor_reached q who = false ->
+    wstep H K t (WEndAbort id now who) = (t', e) ->
+    tconf t' = tconf t /\ fst (snd (snd t')) = fst (snd (snd t)) /\ tpend t' = pending_remove id (tpend t) /\
+    e = WvPropagated (fst t) (fst (fst (snd t))) (snd (fst (snd t))) who (length (tcache t)) /\
+    rreply (wrev e) = None.
+Proof. exact end_abort_leaves_no_reply_proof. Qed.
+Print Assumptions c07_world_end_abort_leaves_no_reply.
+
+(* First conjunct, for every reply of every history with agents at large (labelled proteins, requests
+   left by exceptions before, after or while this one was dealt with): a reply that is not blocked is
+   the gate's outcome for a request of the history with the same cache key whose agents' verdicts
+   satisfied the gate logic configured when it was decided; if it is not a cached reply, this very
+   request under the logic in force now. *)
+Theorem c07_world_pass_only_if :
+  forall (H K : str -> str) tmo0 cf0 bc0 ops i cf bc e q rp,
+    nth_error (unworld (wtrace H K tmo0 cf0 bc0 ops)) i = Some (RvOp cf bc e) -> xreply e = Some (q, rp) ->
+    c_blocked (r_core rp) = false ->
+    exists j ej cfj qj rj,
+      (j <= i)%nat /\ nth_error (unworld (wtrace H K tmo0 cf0 bc0 ops)) j = Some ej /\
+      rreply ej = Some (cfj, qj, rj) /\
+      K (q_prompt qj) = K (q_prompt q) /\ r_cached rj = false /\
+      (r_cached rp = false -> j = i /\ cfj = cf) /\
+      r_core rp = outcome H cfj qj /\
+      spec_pass (cf_logic cfj) (q_exec qj) (q_assess qj) = true.
+Proof. exact world_pass_only_if_proof. Qed.
+Print Assumptions c07_world_pass_only_if.
+
+(* Cached replies are identical in verdict to the original, with agents at large: the original is the
+   uncached reply of an earlier request for the SAME prompt that RETURNED - a request that was left by
+   an exception is nobody's original. *)
+Theorem c07_world_cache_same_verdict :
+  forall (H K : str -> str) tmo0 cf0 bc0 ops,
+    (forall a b, wreq_in ops a -> wreq_in ops b -> K (q_prompt a) = K (q_prompt b) -> q_prompt a = q_prompt b) ->
+    forall i cf bc e q rp,
+      nth_error (unworld (wtrace H K tmo0 cf0 bc0 ops)) i = Some (RvOp cf bc e) -> xreply e = Some (q, rp) ->
+      r_cached rp = true ->
+      exists j ej cfj qj rj tj,
+        (j < i)%nat /\ nth_error (unworld (wtrace H K tmo0 cf0 bc0 ops)) j = Some ej /\
+        rreply ej = Some (cfj, qj, rj) /\
+        rdone_at ej = Some tj /\ q_prompt qj = q_prompt q /\ r_cached rj = false /\
+        r_core rp = r_core rj /\ r_core rj = outcome H cfj qj /\
+        q_time q - tj < cf_ttl cf /\ cf_cache cf = true /\
+        r_exec_called rp = false /\ r_assess_called rp = false.
+Proof. exact world_cache_same_verdict_proof. Qed.
+Print Assumptions c07_world_cache_same_verdict.
+
+(* Token conjunct, with agents at large: a token is attached only when the assessor said PERMIT to this
+   prompt, is bound to the hash of exactly this prompt, and its issuer is the name of the loop's assessor
+   in force when the reply was decided - never what a protein says about its own origin. *)
+Theorem c07_world_token_bound :
+  forall (H K : str -> str) tmo0 cf0 bc0 ops,
+    (forall a b, wreq_in ops a -> wreq_in ops b -> K (q_prompt a) = K (q_prompt b) -> q_prompt a = q_prompt b) ->
+    forall i cf bc e q rp t,
+      nth_error (unworld (wtrace H K tmo0 cf0 bc0 ops)) i = Some (RvOp cf bc e) -> xreply e = Some (q, rp) ->
+      c_token (r_core rp) = Some t ->
+      tk_hash t = H (q_prompt q) /\ c_blocked (r_core rp) = false /\
+      exists j ej cfj qj rj,
+        (j <= i)%nat /\ nth_error (unworld (wtrace H K tmo0 cf0 bc0 ops)) j = Some ej /\
+        rreply ej = Some (cfj, qj, rj) /\
+        q_prompt qj = q_prompt q /\ r_cached rj = false /\ (r_cached rp = false -> j = i /\ cfj = cf) /\
+        q_assess qj = VPermit /\ tk_issuer t = cf_assessor cfj.
+Proof. exact world_token_bound_proof. Qed.
+Print Assumptions c07_world_token_bound.
+
+(* Two loop objects with agents at large: still no influence. *)
+Theorem c07_world_loops_isolated :
+  forall (H K : str -> str) tmo0 tmo1 cf0 cf1 bc0 bc1 tops,
+    proj false (wsys_trace H K tmo0 tmo1 cf0 cf1 bc0 bc1 tops) = wtrace H K tmo0 cf0 bc0 (proj false tops) /\
+    proj true (wsys_trace H K tmo0 tmo1 cf0 cf1 bc0 bc1 tops) = wtrace H K tmo1 cf1 bc1 (proj true tops).
+Proof. exact world_loops_isolated_proof. Qed.
+Print Assumptions c07_world_loops_isolated.
 
 (* Generated-data obligations: the table obtained on this run by calling the
    real _apply_gate_logic on every combination is the model's gate, and it
